@@ -1,32 +1,33 @@
 #!/bin/sh
 # Mutation-test helper (development aid, not a registered check):
 #   tools/mt.sh <patch.diff> <Cnn> [tier]
-# Runs ./check <Cnn> from a private copy of /verif (/tmp/mt/verif) against a private worktree
-# of /repo (/tmp/mt/repo) with the patch applied, so that /repo and /verif stay untouched
+# Runs ./check <Cnn> from a private copy of /verif ($MT/verif) against a private worktree
+# of /repo ($MT/repo) with the patch applied, so that /repo and /verif stay untouched
 # while other work is building against them.
 set -e
 # one user of /tmp/mt at a time
-# (re-entrant: skip if we were told so, or if an ancestor already holds `flock /tmp/mt.lock`)
+# (re-entrant: skip if we were told so, or if an ancestor already holds `flock ${MT_ROOT:-/tmp/mt}.lock`)
 if [ -z "$MT_LOCKED" ]; then
   pid=$$
   while [ -n "$pid" ] && [ "$pid" != "1" ] && [ "$pid" != "0" ]; do
-    if tr '\0' ' ' < /proc/$pid/cmdline 2>/dev/null | grep -q "flock.*/tmp/mt.lock"; then MT_LOCKED=1; break; fi
+    if tr '\0' ' ' < /proc/$pid/cmdline 2>/dev/null | grep -q "flock.*${MT_ROOT:-/tmp/mt}.lock"; then MT_LOCKED=1; break; fi
     pid=$(awk '{print $4}' /proc/$pid/stat 2>/dev/null)
   done
 fi
 if [ -z "$MT_LOCKED" ]; then
-  exec env MT_LOCKED=1 flock /tmp/mt.lock "$0" "$@"
+  exec env MT_LOCKED=1 flock ${MT_ROOT:-/tmp/mt}.lock "$0" "$@"
 fi
 PATCH=$(readlink -f "$1"); PID=$2; TIER=${3:-quick}
-mkdir -p /tmp/mt
-if [ ! -d /tmp/mt/repo ]; then git -C /repo worktree add --detach /tmp/mt/repo HEAD >/dev/null 2>&1; fi
-git -C /tmp/mt/repo checkout -q --detach "$(git -C /repo rev-parse HEAD)"
-git -C /tmp/mt/repo checkout -q -- . && git -C /tmp/mt/repo clean -fdq
-rsync -a --delete --exclude /harness/target --exclude /lean/.lake --exclude /work --exclude /replay --exclude /.git ${MT_SRC:-/verif}/ /tmp/mt/verif/
+MT=${MT_ROOT:-/tmp/mt}
+mkdir -p $MT
+if [ ! -d $MT/repo ]; then git -C /repo worktree add --detach $MT/repo HEAD >/dev/null 2>&1; fi
+git -C $MT/repo checkout -q --detach "$(git -C /repo rev-parse HEAD)"
+git -C $MT/repo checkout -q -- . && git -C $MT/repo clean -fdq
+rsync -a --delete --exclude /harness/target --exclude /lean/.lake --exclude /work --exclude /replay --exclude /.git ${MT_SRC:-/verif}/ $MT/verif/
 # share compiled Lean objects (copy once, then incremental)
-if [ ! -d /tmp/mt/verif/lean/.lake ]; then cp -a /verif/lean/.lake /tmp/mt/verif/lean/.lake; fi
-find /tmp/mt/verif/harness -name Cargo.toml -exec sed -i 's#path = "/repo/#path = "/tmp/mt/repo/#g' {} +
-if [ -n "$PATCH" ] && [ "$PATCH" != "/dev/null" ]; then git -C /tmp/mt/repo apply "$PATCH"; fi
-cd /tmp/mt/verif
-VERIF_REPO=/tmp/mt/repo VERIF_TIER=$TIER ./check "$PID" || true
-git -C /tmp/mt/repo checkout -q -- .
+if [ ! -d $MT/verif/lean/.lake ]; then cp -a /verif/lean/.lake $MT/verif/lean/.lake; fi
+find $MT/verif/harness -name Cargo.toml -exec sed -i "s#path = \"/repo/#path = \"$MT/repo/#g" {} +
+if [ -n "$PATCH" ] && [ "$PATCH" != "/dev/null" ]; then git -C $MT/repo apply "$PATCH"; fi
+cd $MT/verif
+VERIF_REPO=$MT/repo VERIF_TIER=$TIER ./check "$PID" || true
+git -C $MT/repo checkout -q -- .
